@@ -174,7 +174,7 @@ pub fn install_panic_hook() {
     }));
 }
 
-fn guarded<T>(stage: &'static str, f: impl FnOnce() -> T) -> Result<T, Result<SchedAbort, PanicInfo>> {
+pub fn guarded<T>(stage: &'static str, f: impl FnOnce() -> T) -> Result<T, Result<SchedAbort, PanicInfo>> {
     LAST_PANIC.with(|p| *p.borrow_mut() = None);
     match catch_unwind(AssertUnwindSafe(f)) {
         Ok(v) => Ok(v),
